@@ -77,6 +77,14 @@ class INSObserver(StandardObserver):
         d["counts"] = repr(sorted(ns.sample_counts.items()))
         d["weights"] = repr(sorted((k, float(v)) for k, v in ns.proposal._weights.items()))
         d["level_count"] = int(ns.proposal.level_count)
+        # the weights of the flow of every level, in level order (restored from levels/level_<k>/model.pt)
+        try:
+            from .observe import state_digest
+
+            models = getattr(getattr(ns.proposal, "flow", None), "models", None)
+            d["flows"] = repr([state_digest(m) for m in models]) if models is not None else "none"
+        except Exception as ex:  # noqa
+            d["flows"] = "error:" + type(ex).__name__
         h = ns.history or {}
         d["hist"] = digest31(repr({k: (len(v), repr(v[-1]) if len(v) else None) for k, v in sorted(h.items())
                                    if isinstance(v, list) and k != "sampling_time"}),
